@@ -279,6 +279,45 @@ impl Router {
     //@end
 }
 
+// `list.iter().position(|(d, p, m, _)| d == domain && p == path && m == method)` (iterator adaptor + closure): the first
+// index whose (domain, path, method) triple equals the arguments under the real `==` of the three rule types
+// (ASSUMED std semantics of Iterator::position)
+pub uninterp spec fn spec_triple_eq(e: (DomainRule, PathRule, MethodRule, Route), d: DomainRule, p: PathRule, m: MethodRule) -> bool;
+#[verifier::external_body]
+pub fn verif_position(l: &Vec<(DomainRule, PathRule, MethodRule, Route)>, d: &DomainRule, p: &PathRule, m: &MethodRule) -> (r: Option<usize>)
+    ensures
+        match r {
+            Some(i) => i < l@.len() && spec_triple_eq(l@[i as int], *d, *p, *m) && forall|k: int| 0 <= k < i ==> !spec_triple_eq(#[trigger] l@[k], *d, *p, *m),
+            None => forall|k: int| 0 <= k < l@.len() ==> !spec_triple_eq(#[trigger] l@[k], *d, *p, *m),
+        }
+{ unimplemented!() }
+
+impl Router {
+    // Pre / post rules are matched first-wins in list order (lookup above), so removing one rule must keep the
+    // relative order of all the others: otherwise the route of a request the removed rule never matched would
+    // depend on the history of additions and removals.
+    //@fn lib/src/router/mod.rs Router::remove_pre_rule
+    //@  ret r
+    //@  subst "self\n            .pre\n            .iter()\n            .position(|(d, p, m, _)| d == domain && p == path && m == method)" => "verif_position(&self.pre, domain, path, method)"
+    //@  drop_dassert 3 iterator adaptor any(..) with a closure; its content (the triple is gone) follows from the list being deduplicated, which is not a claim of this unit
+    //@  ensures
+    //@    !r ==> final(self).pre@ == old(self).pre@ && (forall|k: int| 0 <= k < old(self).pre@.len() ==> !spec_triple_eq(#[trigger] old(self).pre@[k], *domain, *path, *method)), // [nothing-removed-only-when-absent]
+    //@    r ==> exists|i: int| 0 <= i < old(self).pre@.len() && spec_triple_eq(old(self).pre@[i], *domain, *path, *method)
+    //@        && final(self).pre@ == old(self).pre@.remove(i),                                         // [the-first-equal-rule-goes-and-every-other-rule-keeps-its-relative-order]
+    //@    final(self).post@ == old(self).post@ && final(self).tree == old(self).tree,                   // [only-the-pre-list-changes]
+    //@end
+    //@fn lib/src/router/mod.rs Router::remove_post_rule
+    //@  ret r
+    //@  subst "self\n            .post\n            .iter()\n            .position(|(d, p, m, _)| d == domain && p == path && m == method)" => "verif_position(&self.post, domain, path, method)"
+    //@  drop_dassert 3 iterator adaptor any(..) with a closure; see remove_pre_rule
+    //@  ensures
+    //@    !r ==> final(self).post@ == old(self).post@ && (forall|k: int| 0 <= k < old(self).post@.len() ==> !spec_triple_eq(#[trigger] old(self).post@[k], *domain, *path, *method)), // [nothing-removed-only-when-absent]
+    //@    r ==> exists|i: int| 0 <= i < old(self).post@.len() && spec_triple_eq(old(self).post@[i], *domain, *path, *method)
+    //@        && final(self).post@ == old(self).post@.remove(i),                                        // [the-first-equal-rule-goes-and-every-other-rule-keeps-its-relative-order]
+    //@    final(self).pre@ == old(self).pre@ && final(self).tree == old(self).tree,                     // [only-the-post-list-changes]
+    //@end
+}
+
 pub proof fn lemma_path_rule_eq_reflexive(a: PathRule)
     ensures same_path_rule(a, a)
 {}
